@@ -220,7 +220,16 @@ def run_component(prop, name, args, seed, n, tier):
     d = os.path.join(WORK, prop, name.replace(" ", "_"))
     shutil.rmtree(d, ignore_errors=True)
     os.makedirs(d)
-    sh([BWH] + name.split() + ["--seed", str(seed), "--n", str(n), "--out", d, "--tier", tier] + args, timeout=7200)
+    hang = os.path.join(d, "hang.json")
+    p = sh([BWH] + name.split() + ["--seed", str(seed), "--n", str(n), "--out", d, "--tier", tier] + args, timeout=7200, check=False,
+           env=dict(ENV, BWH_HANG_FILE=hang))
+    if p.returncode == 3 and os.path.exists(hang):
+        h = json.load(open(hang))
+        b = Broken(f"harness component `{name}`: the implementation did not finish case {h['index']} within {h['limit_s']} s", p.stdout[-1000:])
+        b.hang_case = h["case"]
+        raise b
+    if p.returncode != 0:
+        raise Broken("command failed: " + BWH + " " + name, p.stdout[-4000:])
     run_model(os.path.join(d, "cases.jsonl"), os.path.join(d, "model.jsonl"))
     rows = []
     with open(os.path.join(d, "cases.jsonl")) as fc, open(os.path.join(d, "impl.jsonl")) as fi, \
@@ -666,6 +675,10 @@ def main():
     except Broken as b:
         # an obligation / build / correspondence step no longer checks: search for a failing input, else report no-failing-input-found
         found = False
+        if getattr(b, "hang_case", None) is not None:
+            rep.violation({"property": prop, "what": "the implementation does not terminate on this input within the time limit (in-process run under the harness watchdog)",
+                           "broken": b.what, "case": b.hang_case})
+            found = True
         try:
             if "search" in meta:
                 found = meta["search"](rep, tier, seed, b)
